@@ -337,3 +337,72 @@ func vh_C05_lazy() {
 	vC05RunAll(env, forms, "lazy")
 	vReachIdx("lazy", k, len(vC05LazyPrograms))
 }
+
+// vh_C05_redefinition: a definition that fails leaves the earlier definition
+// of the same name intact.  A function, a variable, a macro, a typed func and
+// a struct are defined; then a redefinition with a malformed body (a compile
+// error in an eagerly compiled position, or a failing right-hand side) is
+// evaluated and must report an error; every later use of the name behaves as
+// in a twin interpreter that never saw the failing redefinition.
+var vC05Redefs = []struct {
+	define, redefine string
+	uses             []string
+}{
+	{`(defn thing [u] (+ u 9001))`, `(defn thing [u] (cond (let) 1 2))`, []string{`(thing 1)`, `(str thing)`}},
+	{`(defn thing [u] (+ u 9001))`, `(defn thing [u] (let [w u] (fn)))`, []string{`(thing 2)`}},
+	{`(def thing 9001)`, `(def thing (let))`, []string{`(+ thing 1)`}},
+	{`(def thing 9001)`, `(def thing (+ 1 (nosuchfunction)))`, []string{`(+ thing 1)`}},
+	{`(defmac thing [x] ^(+ ~x 9001))`, `(defmac thing [x] (break))`, []string{`(thing 1)`, `(macexpand (thing 2))`, `(defn user [] (thing 3)) (user)`}},
+	{`(defmac thing [x] ^(+ ~x 9001))`, `(defmac thing [x] (cond (let) 1 2))`, []string{`(thing 1)`}},
+	{`(defmac thing [x] ^(+ ~x 9001))`, `(defmac thing [(quote bad)] 1)`, []string{`(thing 1)`}},
+	{`(func thing [a:int64] [n:int64] (return (+ a 9001)))`, `(func thing [a:nosuchtype] [n:int64] (return a))`, []string{`(thing 1)`, `(thing a:2)`}},
+	{`(struct Thing [(field N: int64 e:0)])`, `(struct Thing [(field N: nosuchtype e:0)])`, []string{`(:N (Thing N: 9001))`, `(Thing N: "str")`}},
+	{`(defn thing [u] (+ u 9001))`, `(set thing (let))`, []string{`(thing 1)`}},
+}
+
+func vh_C05_redefinition() {
+	vFormatOpaque(true)
+	envs := vStdEnvs(2)
+	env, twin := envs[0], envs[1]
+	k := vChoice("redef", len(vC05Redefs))
+	rd := vC05Redefs[k]
+	h := vSmallInt("h")
+	evalAll := func(e *Zlisp, src string) (Sexp, error, bool) {
+		var res Sexp = SexpNull
+		var err error
+		p := false
+		for _, f := range vT(e, src, h) {
+			res, err, p = vEval(e, f)
+			if err != nil || p {
+				break
+			}
+		}
+		return res, err, p
+	}
+	for _, e := range []*Zlisp{env, twin} {
+		if _, err, p := evalAll(e, rd.define); err != nil || p {
+			vAssert(false, "redefinition-setup")
+			return
+		}
+	}
+	_, err, p := evalAll(env, rd.redefine)
+	vAssert(!p, "failed-redefinition-no-panic")
+	if p {
+		return
+	}
+	vAssert(err != nil, "malformed-redefinition-is-rejected")
+	vC04AtRest(env, "after-failed-redefinition")
+	for _, use := range rd.uses {
+		r1, e1, p1 := evalAll(env, use)
+		r2, e2, p2 := evalAll(twin, use)
+		vAssert(!p1 && !p2, "redefinition-followup-no-panic")
+		if p1 || p2 {
+			return
+		}
+		vAssert((e1 == nil) == (e2 == nil), "earlier-definition-behaves-as-in-the-twin")
+		if e1 == nil && e2 == nil {
+			vAssert(vSexpEq(r1, r2) || r1.SexpString(nil) == r2.SexpString(nil), "earlier-definition-same-value-as-in-the-twin")
+		}
+	}
+	vReachIdx("redefinition", k, len(vC05Redefs))
+}
